@@ -1,6 +1,81 @@
+//! C08 — densified one-permutation hashing is an unbiased Jaccard LSH at any fill ratio
 use crate::common::*;
+use crate::gen::*;
+use crate::sk::*;
+use crate::stat::*;
+use serde_json::json;
 
 pub fn run(rep: &mut Report) {
-    let _ = rep;
-    eprintln!("C08 not implemented yet");
+    quiet_panics();
+    rep.rule = "cell = (algorithm Opt/RevOpt, float type, set shape, sketch size m = ratio x |A∪B| with ratio from 1/100 to 1000); per trial fresh random items, A sketched through sketch_slice and B item-wise + end_sketch by the real code; statistics: fraction of equal positions in the float, u64 and u32 views, target J for each (staged z-test on the empirical trial variance; J in {0,1} exact). Distinct = cells; non-trivial: 0<J<1".into();
+    // (a_only, b_only, both)
+    let shapes: Vec<(&str, usize, usize, usize)> = vec![("third", 2, 2, 2), ("half", 1, 1, 2), ("j09", 1, 1, 18), ("j005", 10, 9, 1), ("disjoint", 3, 4, 0), ("identical", 0, 0, 5), ("nested", 0, 4, 2), ("singletons", 1, 0, 1)];
+    let ratios: Vec<(&str, f64)> = vec![("1/100", 0.01), ("1/10", 0.1), ("1", 1.), ("10", 10.), ("100", 100.), ("1000", 1000.)];
+    let kinds = [UKind::OptF32, UKind::OptF64, UKind::RevF32, UKind::RevF64];
+    let t1: u64 = rep.tier.pick(4000, 50_000);
+    let mut ci = 0u64;
+    for kind in kinds {
+        for (rname, ratio) in &ratios {
+            for (si, (sname, ao, bo, both)) in shapes.iter().enumerate() {
+                ci += 1;
+                let hsel = mix(&[ci, rep.seed, 0xC08]);
+                if rep.tier == Tier::Quick && hsel % 3 != 0 {
+                    continue;
+                }
+                // scale the shape so that the sketch size is reasonable: union size U, m = ratio * U
+                let base = ao + bo + both;
+                let scale = if *ratio < 1. { ((20. / ratio) / base as f64).ceil() as usize } else { 1 };
+                let (ao, bo, both) = (ao * scale, bo * scale, both * scale);
+                let u = ao + bo + both;
+                let mut m = ((u as f64) * ratio).round().max(1.) as usize;
+                let is_rev = matches!(kind, UKind::RevF32 | UKind::RevF64);
+                if is_rev && m > rep.tier.pick(1000, 6000) {
+                    m = rep.tier.pick(1000, 6000);
+                }
+                let cell = format!("{}/ratio={}/{}/m={}", kind.name(), rname, sname, m);
+                if !rep.want(&cell) {
+                    continue;
+                }
+                let j = both as f64 / u as f64;
+                let degenerate = j == 0. || j == 1.;
+                let cost = (u + m * if is_rev { 40 } else { 4 }) as f64;
+                let budget: f64 = rep.tier.pick(1.5e8, 1.2e10);
+                let tt = ((budget / cost) as u64).clamp(400, t1);
+                let kindt = if degenerate { Kind::Exact } else { Kind::TwoSided };
+                let targets = vec![Target::new("float_view", j, kindt), Target::new("u64_view", j, kindt), Target::new("u32_view", j, kindt)];
+                let seed = subseed(rep.seed, "C08", &[ci]);
+                let (rs, trials) = staged(seed, tt, 3, &targets, |rng, out| {
+                    let ids = fresh_ids(rng, u, 0);
+                    let mut a: Vec<u64> = ids[..ao].to_vec();
+                    a.extend_from_slice(&ids[ao + bo..]);
+                    let mut b: Vec<u64> = ids[ao..].to_vec();
+                    shuffle(&mut a, rng);
+                    shuffle(&mut b, rng);
+                    let mut ska = make_usk(kind, m);
+                    ska.sketch_slice(&a);
+                    let mut skb = make_usk(kind, m);
+                    for x in &b {
+                        skb.sketch(*x);
+                    }
+                    skb.finish();
+                    let ba = ska.bits();
+                    let bb = skb.bits();
+                    for v in 0..3 {
+                        let eq = (0..m).filter(|&p| ba[v * m + p] == bb[v * m + p]).count();
+                        out[v] = eq as f64 / m as f64;
+                    }
+                });
+                let case = json!({"kind": kind.name(), "m": m, "ratio_m_over_union": rname, "a_only": ao, "b_only": bo, "both": both, "J": j});
+                if ci % 17 == 1 {
+                    rep.sample(case.clone());
+                }
+                if !degenerate {
+                    rep.distinct.insert(mix(&[fnv64(kind.name().as_bytes()), m as u64, si as u64, u as u64]));
+                }
+                record_cell(rep, "C08", &cell, &rs, trials * 2, case);
+            }
+        }
+    }
+    collect_ticks(rep);
+    rep.assumptions.push("positions of a densified sketch are strongly correlated in the sparse regime: only the empirical trial-level variance is used".into());
 }
